@@ -38,6 +38,15 @@ def plan(plan, tier, seed):
         plan.verus.append(VerusUnit("c17_coverage", unit, {"validate_fsm_state_coverage_traversal": n4}, ["canary_cov"]))
     except AnchorLost as e:
         plan.anchor_errors.append((n4, str(e)))
+    n6 = "C17.verus.validate_fsm_state_coverage.start_state_has_an_arm"
+    plan.ob(n6, "verus", "proved", functions=["validate_fsm_state_coverage (the start-state check)"],
+            what="when the arms name states, the declaration is accepted only if its start state is a named state that has an arm (an unnamed or arm-less start state is rejected)")
+    try:
+        unit = vlib.verus_file([vC17.START_MODEL, vC17.start_state_fn(text), vlib.verus_canary("canary_start", "x: u64", [])])
+        plan.verus.append(VerusUnit("c17_start", unit, {"start_state_check": n6}, ["canary_start"]))
+    except AnchorLost as e:
+        plan.anchor_errors.append((n6, str(e)))
+    plan.dropped.append(vC17.start_state_fn.__doc__.strip())
     n5 = "C17.verus.execute_fsm_pipe.arguments_bound_and_checked"
     plan.ob(n5, "verus", "proved", functions=["execute_fsm_pipe (from the argument-count test to the end)"],
             what="a call with a wrong number of arguments, or with an argument whose kind does not match its declared input kind, is rejected; otherwise the machine runs (execute_fsm_pipe_impl) from its DECLARED start state, evaluated in an environment that binds exactly the declared input names to the given (detached) arguments, after the coverage validation accepted the declaration")
@@ -61,5 +70,5 @@ def plan(plan, tier, seed):
         "termination: the outer loop is `for step in 0..p.max_steps`, each inner loop ranges over a finite list (Verus checks the for-loops' implicit measures); evaluators are assumed to return",
     ]
     plan.assumptions += ["execute_fsm_pipe fragment: kind resolution of an annotation, fsm_argument_kind_matches, detach_value, pattern_to_value, validate_fsm_state_coverage and execute_fsm_pipe_impl are uninterpreted (contracts/C17/argmodel.rs); `fsm`, `input_decls`, `args` (looked up / evaluated above the fragment) are parameters"]
-    plan.undecided_clauses += ["C17: of execute_fsm_pipe the lookup of the machine and of its specification and the evaluation of the argument expressions (above the fragment); fsm_argument_kind_matches itself; validate_fsm_state_coverage's collection of declared state names and start-state check ('declared state without an arm'), the declared output kind; the contracts of execute_fsm_pipe_impl (apply_transitions uninterpreted) and of apply_transitions are proved separately and not composed mechanically"]
+    plan.undecided_clauses += ["C17: of execute_fsm_pipe the lookup of the machine and of its specification and the evaluation of the argument expressions (above the fragment); fsm_argument_kind_matches itself; validate_fsm_state_coverage's collection of the state names from the arms, the declared output kind; the contracts of execute_fsm_pipe_impl (apply_transitions uninterpreted) and of apply_transitions are proved separately and not composed mechanically"]
     plan.level = "proof"
